@@ -208,5 +208,6 @@ pub fn subs() -> Vec<Box<dyn DynSub>> {
         sub(Sub { name: "c16.arithmetic", source: Source::Enum(arith_enum, |_| true), oracle: arith_oracle, known: no_known, hang_is_violation: false }),
         sub(Sub { name: "c16.all_days", source: Source::Enum(wd_enum, |_| true), oracle: wd_oracle, known: no_known, hang_is_violation: false }),
         sub(Sub { name: "c16.generated", source: Source::Gen(wd_strategy, 2_400_000, 20_000_000), oracle: wd_oracle, known: no_known, hang_is_violation: false }),
+        crate::props::fuzzsub::fc16(),
     ]
 }
